@@ -236,6 +236,10 @@ def mutant_strings(ref, payload):
     for c in ALPHABET:
         yield 'ext', s + c
         yield 'ext', c + s
+    # a valid encoding with something appended / prepended that a lenient decoder might strip (white space, NUL, bad characters)
+    for c in tuple(BAD_CHARS) + WHITE_PADS:
+        yield 'extbad', s + c
+        yield 'extbad', c + s
     yield 'len', B.b58check_encode(bp, payload[:-1])
     yield 'len', B.b58check_encode(bp, payload + payload[-1:])
     seen = {bp}
@@ -250,6 +254,7 @@ def mutant_strings(ref, payload):
     yield 'checksum', B.b58encode(bp + payload + B.checksum(payload))
 
 
+WHITE_PADS = (' ', '\n', '\r\n', '\t', '  ', '\x0b', '\x0c', '\x00', '\xa0')
 ADDRESS_PREFIXES = ('tz1', 'tz2', 'tz3', 'tz4', 'KT1', 'sr1', 'txr1')
 
 
